@@ -1,8 +1,11 @@
 import NessaiVerif.Model.Np
+import NessaiVerif.Model.PySlice
 import NessaiVerif.Driver.Parse
 /- `np` — the NumPy primitive models on their own (validated against NumPy by harness/np_prims.py):
    `np ssl [a..] v` | `np ssr [a..] v` | `np insert [a..] [idx..] [vals..]` | `np argmax [0/1..]`
-   | `np complement n [idx..]` | `np cumsum [a..]` | `np splitn n k` -/
+   | `np complement n [idx..]` | `np cumsum [a..]` | `np splitn n k`
+   Python/NumPy indexing (Model/PySlice.lean; bounds `none` or an integer):
+   | `np getslice [a..] s e` | `np setslice [a..] s e [v..]` | `np getitem [a..] i` | `np setitem [a..] i x` -/
 namespace NessaiVerif.Driver.NpPrim
 open NessaiVerif NessaiVerif.Parse NessaiVerif.Np
 
@@ -33,6 +36,31 @@ def handle (toks : List String) : String :=
     match parseList? parseInt? a with
     | some a => showList toString (cumsum a 0)
     | none => "bad-op"
+  | ["getslice", a, s, e] =>
+    match parseList? parseInt? a, parseOpt? parseInt? s, parseOpt? parseInt? e with
+    | some a, some s, some e => showList toString (Py.getSlice a s e)
+    | _, _, _ => "bad-op"
+  | ["setslice", a, s, e, v] =>
+    match parseList? parseInt? a, parseOpt? parseInt? s, parseOpt? parseInt? e, parseList? parseInt? v with
+    | some a, some s, some e, some v =>
+      match Py.setSlice a s e v with
+      | .ok r => showList toString r
+      | .error _ => "err=value"
+    | _, _, _, _ => "bad-op"
+  | ["getitem", a, i] =>
+    match parseList? parseInt? a, parseInt? i with
+    | some a, some i =>
+      match Py.getItem a i with
+      | .ok r => toString r
+      | .error _ => "err=index"
+    | _, _ => "bad-op"
+  | ["setitem", a, i, x] =>
+    match parseList? parseInt? a, parseInt? i, parseInt? x with
+    | some a, some i, some x =>
+      match Py.setItem a i x with
+      | .ok r => showList toString r
+      | .error _ => "err=index"
+    | _, _, _ => "bad-op"
   | _ => "bad-op"
 
 end NessaiVerif.Driver.NpPrim
